@@ -3300,12 +3300,12 @@ impl Zeroconf {
                     }
                 }
 
+                // Find the service by its current name: it may have been renamed
+                // by conflict resolution, and DNS names compare case-insensitively.
                 let query_name = q_name.to_lowercase();
-                let service_opt = self
-                    .my_services
-                    .iter()
-                    .find(|(k, _v)| dns_registry.resolve_name(k.as_str()) == query_name)
-                    .map(|(_, v)| v);
+                let service_opt = self.my_services.values().find(|v| {
+                    dns_registry.resolve_name(v.get_fullname()).to_lowercase() == query_name
+                });
 
                 let Some(service) = service_opt else {
                     continue;
@@ -3328,11 +3328,12 @@ impl Zeroconf {
                     continue;
                 }
 
-                add_answer_of_service(
+                add_answer_of_service_on_host(
                     &mut out,
                     &msg,
                     question.entry_name(),
                     service,
+                    dns_registry.resolve_name(service.get_hostname()),
                     qtype,
                     intf_addrs,
                 );
@@ -3994,11 +3995,27 @@ impl Zeroconf {
 }
 
 /// Adds one or more answers of a service for incoming msg and RR entry name.
+#[cfg(test)]
 fn add_answer_of_service(
     out: &mut DnsOutgoing,
     msg: &DnsIncoming,
     entry_name: &str,
     service: &ServiceInfo,
+    qtype: RRType,
+    intf_addrs: Vec<IpAddr>,
+) {
+    let hostname = service.get_hostname();
+    add_answer_of_service_on_host(out, msg, entry_name, service, hostname, qtype, intf_addrs);
+}
+
+/// Adds the SRV / TXT answers of `service` for a question of `qtype`. `hostname` is the
+/// current host name of the service: not the registered one after a name conflict.
+fn add_answer_of_service_on_host(
+    out: &mut DnsOutgoing,
+    msg: &DnsIncoming,
+    entry_name: &str,
+    service: &ServiceInfo,
+    hostname: &str,
     qtype: RRType,
     intf_addrs: Vec<IpAddr>,
 ) {
@@ -4012,7 +4029,7 @@ fn add_answer_of_service(
                 service.get_priority(),
                 service.get_weight(),
                 service.get_port(),
-                service.get_hostname().to_string(),
+                hostname.to_string(),
             ),
         );
     }
@@ -4032,7 +4049,7 @@ fn add_answer_of_service(
     if qtype == RRType::SRV {
         for address in intf_addrs {
             out.add_additional_answer(DnsAddress::new(
-                service.get_hostname(),
+                hostname,
                 ip_address_rr_type(&address),
                 CLASS_IN | CLASS_CACHE_FLUSH,
                 service.get_host_ttl(),
